@@ -75,7 +75,7 @@ def run(ctx):
     ev.explanation = (
         "Abstract interpretation of ml.ConvContract on x and on g.x with symbolic pixels, weights, biases and a generic invariant filter bank (Reynolds image of "
         "symbolic seeds over B_D, so every invariant bank is an instance): layer(g.x) == g.layer(x) is decided as a polynomial identity in all of them, i.e. for "
-        "every parameter value, for every g in B_D (8 / 48 elements), signatures with unequal channels incl. pseudo-types, the five bias modes, TORUS/SAME/explicit "
+        "every parameter value, for the generators of B_D (adjacent axis swaps and a reflection; equivariance on generators implies it on all 8 / 48 elements), signatures with unequal channels incl. pseudo-types, the five bias modes, TORUS/SAME/explicit "
         "padding, filter and image dilation, torus flags, D=2,3; cyclic shifts on fully toroidal images."
     )
     ev.rule_text = "one obligation per (D, input/target signature, bias mode, padding, dilations, flags, group element g or shift); non-trivial = g != identity"
